@@ -215,6 +215,45 @@ func (p *parsed) evalTable(cl *ast.CompositeLit) ([]string, bool) {
 	return out, true
 }
 
+// applyInitAssignments applies `name[k] = v` statements found in init()
+// functions of the package (tables filled at start-up, e.g. isWhiteSpace).
+func (p *parsed) applyInitAssignments(name string, vals []string) {
+	for _, fn := range sortedFiles(p.files) {
+		for _, d := range p.files[fn].Decls {
+			fd, ok := d.(*ast.FuncDecl)
+			if !ok || fd.Name.Name != "init" || fd.Recv != nil || fd.Body == nil {
+				continue
+			}
+			for _, st := range fd.Body.List {
+				as, ok := st.(*ast.AssignStmt)
+				if !ok || len(as.Lhs) != 1 || len(as.Rhs) != 1 {
+					continue
+				}
+				ix, ok := as.Lhs[0].(*ast.IndexExpr)
+				if !ok {
+					continue
+				}
+				id, ok := ix.X.(*ast.Ident)
+				if !ok || id.Name != name {
+					continue
+				}
+				ktv, ok1 := p.info.Types[ix.Index]
+				vtv, ok2 := p.info.Types[as.Rhs[0]]
+				if !ok1 || !ok2 || ktv.Value == nil || vtv.Value == nil {
+					continue
+				}
+				ks, _ := constInt(ktv.Value)
+				vs, ok := constInt(vtv.Value)
+				var k int
+				fmt.Sscan(ks, &k)
+				if ok && k >= 0 && k < len(vals) {
+					vals[k] = vs
+				}
+			}
+		}
+	}
+}
+
 type genFile struct {
 	name string
 	buf  bytes.Buffer
@@ -322,6 +361,7 @@ func genTables(ps []*parsed) *genFile {
 						switch v := vs.Values[i].(type) {
 						case *ast.CompositeLit:
 							if vals, ok := p.evalTable(v); ok && len(vals) > 0 {
+								p.applyInitAssignments(id.Name, vals)
 								emitList(g, cname, vals)
 								seen[cname] = true
 								ntab++
